@@ -5,13 +5,13 @@ package rag
 import "unicode/utf8"
 
 // vBuildText builds a valid UTF-8 text of k characters: each is a symbolic ASCII byte from set,
-// or one of the concrete multi-byte characters (2, 3 and 4 bytes).
+// or one of the concrete multi-byte characters (2, 3 and 4 bytes; the 3-byte ones contain the bytes 0xA0 / 0x85, which are spaces when a single byte is misread as a rune).
 func vBuildText(k int, set string, multi bool) string {
 	var b []byte
 	for i := 0; i < k; i++ {
 		kind := 0
 		if multi {
-			kind = vAnyIntIn(0, 3)
+			kind = vAnyIntIn(0, 3+vTier())
 		}
 		switch kind {
 		case 0:
@@ -19,9 +19,11 @@ func vBuildText(k int, set string, multi bool) string {
 		case 1:
 			b = append(b, "é"...)
 		case 2:
-			b = append(b, "あ"...)
-		default:
+			b = append(b, "校"...) // E6 A0 A1: its continuation byte 0xA0 is U+00A0 (a space) when read as a rune
+		case 3:
 			b = append(b, "😀"...)
+		default:
+			b = append(b, "元"...) // E5 85 83: continuation byte 0x85 is U+0085 (NEL, a space) as a rune
 		}
 	}
 	return string(b)
